@@ -568,6 +568,10 @@ func (c *compiler) arrayOperator(l interface{}, r interface{}, op string) (inter
 	var err error
 	switch op {
 	case "+":
+		if reflect.TypeOf(l).Kind() != reflect.Slice {
+			return nil, fmt.Errorf("cannot append to %T, only slices can be appended to", l)
+		}
+
 		elemType := reflect.TypeOf(l).Elem()
 		if elemType.Kind() != reflect.Interface {
 			t := reflect.ValueOf(r).Type()
@@ -576,7 +580,7 @@ func (c *compiler) arrayOperator(l interface{}, r interface{}, op string) (inter
 			}
 		}
 		if err == nil {
-			return reflect.Append(reflect.ValueOf(l), reflect.ValueOf(r)), nil
+			return reflect.Append(reflect.ValueOf(l), reflect.ValueOf(r)).Interface(), nil
 		}
 	default:
 		err = fmt.Errorf("unkown operator (%s) on %T and %T ", op, l, r)
